@@ -5,6 +5,9 @@ package models
 import (
 	"io"
 	"net/http"
+
+	"github.com/prometheus/client_golang/prometheus"
+	pph "github.com/prometheus/client_golang/prometheus/promhttp"
 )
 
 // HTTP_NewRequest models net/http.NewRequest: method validation (httpguts
@@ -30,11 +33,17 @@ func HTTP_NewRequest(method, url string, body io.Reader) (*http.Request, error) 
 	}, nil
 }
 
-// Metrics_InstrumentClient models metrics.InstrumentClientWithConstLabels:
-// the prometheus round-tripper decoration is skipped, the client is returned
-// as it is and registration never fails.  (controllerType / hookType are the
-// string-kinded common.ControllerType / common.HookType; this package must not
-// import pkg/controller/common.)
-func Metrics_InstrumentClient(controllerName string, controllerType string, hookType string, c *http.Client, url string) (*http.Client, error) {
-	return c, nil
+// The four promhttp round-tripper decorators: pass-through (what they add is
+// bookkeeping in prometheus collectors).
+func Pph_InFlight(gauge prometheus.Gauge, next http.RoundTripper) pph.RoundTripperFunc {
+	return func(r *http.Request) (*http.Response, error) { return next.RoundTrip(r) }
+}
+func Pph_Counter(counter *prometheus.CounterVec, next http.RoundTripper, opts ...pph.Option) pph.RoundTripperFunc {
+	return func(r *http.Request) (*http.Response, error) { return next.RoundTrip(r) }
+}
+func Pph_Trace(it *pph.InstrumentTrace, next http.RoundTripper) pph.RoundTripperFunc {
+	return func(r *http.Request) (*http.Response, error) { return next.RoundTrip(r) }
+}
+func Pph_Duration(obs prometheus.ObserverVec, next http.RoundTripper, opts ...pph.Option) pph.RoundTripperFunc {
+	return func(r *http.Request) (*http.Response, error) { return next.RoundTrip(r) }
 }
